@@ -499,6 +499,18 @@ func init() {
 			for _, c := range cs {
 				rs = append(rs, HRun{Pkg: "./shovel", Fn: "ZZ_C03_Reorg", Params: []int{c.k, c.canon, c.batch, c.steps}})
 			}
+			// the block is replaced between the calls of one Get, or between two Gets of the same
+			// range through the caching client: a successful Get returns ONE version of the block
+			for plan := 0; plan <= 3; plan++ {
+				for _, ag := range [][2]int{{1, 1}, {2, 2}, {2, 4}, {3, 4}, {0, 1}, {9, 2}} {
+					rs = append(rs, HRun{Pkg: "./jrpc2", Fn: "ZZ_C03_Switch", Params: []int{plan, ag[0], ag[1]}, Label: "one-version-per-block"})
+				}
+				if tier == "thorough" {
+					for _, ag := range [][2]int{{1, 4}, {3, 2}, {4, 4}, {1, 2}, {2, 3}} {
+						rs = append(rs, HRun{Pkg: "./jrpc2", Fn: "ZZ_C03_Switch", Params: []int{plan, ag[0], ag[1]}, Label: "one-version-per-block"})
+					}
+				}
+			}
 			// reorg between the RPC answers of one fetch: every accepted segment is hash-linked
 			for _, plan := range []int{1, 2, 4, 5} {
 				for _, l := range []int{2, 3} {
@@ -508,6 +520,7 @@ func init() {
 			return rs
 		},
 		Assumptions: append([]string{
+			"reorgs between RPC calls and with a shared caching client (ZZ_C03_Switch): the honest node replaces block 100 (new symbolic hash, timestamp, log data, gas used; same parent) before node call number `at` of 1-4 successive Gets of the same range through the real caching client (maxreads 2), for the plans headers+logs, blocks+logs, blocks+receipts, headers+receipts; every successful Get must return one version of the block (header fields, logs and receipts belong to the block whose hash it presents), and after the cached segment has expired the retries end with the current version",
 			"the chain is frozen at its canonical version while the task converges ('once the source settles'); the top (k - canon) cursor rows carry orphaned hashes, the oldest retained cursor row is canonical (forks below the retained history are outside the property as well)",
 			"reorgs landing between the RPC answers of one fetch: every element of a batch answer has arbitrary (solver-chosen) hash and parent hash, i.e. each may come from a different chain version; an accepted segment must be hash-linked throughout (ZZ_C07_Get, plans with headers/blocks, limit 2..3); linkage across partitions of one load() and between the head query and the fetch is not covered",
 		}, convAssume...),
